@@ -271,6 +271,10 @@ func ruleSortedNames(c *chk.Ctx) {
 					sorted = true
 				}
 			})
+			// or the result of slices.Sorted(...) itself
+			if call, ok := v.(*ssa.Call); ok && strings.HasPrefix(ir.CalleeName(&call.Call), "slices.Sorted") {
+				sorted = true
+			}
 			c.Check(sorted, "TABLE.sorted", f, "names are sorted", r.Pos(), "the returned slice passed through sort.Strings after its last append", "Names can return a slice that was not sorted after its last append (map iteration order would leak)")
 		}
 	}
